@@ -296,6 +296,26 @@ func scriptClSame() Script {
 	}}
 }
 
+// tenpools: ten concentrated pools, so that the ids 1 and 10 are prefixes of one another (every per-pool key of the
+// concentrated-liquidity and pool-incentives modules is a byte-prefix range over the decimal pool id; each concentrated pool
+// gets its own NoLock gauges at creation). Positions in pools 1 and 10 only; no swaps, no full-range positions.
+func scriptTenPools() Script {
+	A, B := acc("A"), acc("B")
+	var create []sdk.Msg
+	for i := 0; i < 10; i++ {
+		cm := clmodel.NewMsgCreateConcentratedPool(core.Acc("A"), "eth", "usdc", 100, dec("0.003"))
+		create = append(create, &cm)
+	}
+	return Script{Name: "tenpools", Blocks: []Block{
+		{Dt: 5 * time.Second, Txs: one(create...)},
+		{Dt: 5 * time.Second, Txs: one(
+			clPos(1, A, -1000, 1000, c("eth", 1_000_000), c("usdc", 1_000_000)),
+			clPos(10, B, -2000, 3000, c("eth", 2_000_000), c("usdc", 2_000_000)),
+		)},
+		{Dt: 24*time.Hour + time.Minute, Txs: one(clPos(10, A, -1000, 1000, c("eth", 1_000_000), c("usdc", 1_000_000)))},
+	}}
+}
+
 // poolcache: a pool creation that fails AFTER the pool was initialised (the creator cannot pay the creation fee;
 // by then the creation hooks have asked the pool manager for the pool's module, which memoises the answer in
 // process memory during block execution) frees the pool id again; the next block creates a pool of a DIFFERENT
@@ -426,5 +446,5 @@ func scriptValset() Script {
 }
 
 func moreScripts() []Script {
-	return []Script{scriptGamm2(), scriptCl2(), scriptSf2(), scriptGroupFee(), scriptClSame(), scriptPoolCache(), scriptPoolCache2(), scriptSfCl(), scriptNoLock(), scriptUnpool(), scriptValset()}
+	return []Script{scriptGamm2(), scriptCl2(), scriptSf2(), scriptGroupFee(), scriptClSame(), scriptPoolCache(), scriptPoolCache2(), scriptSfCl(), scriptNoLock(), scriptUnpool(), scriptValset(), scriptTenPools()}
 }
